@@ -357,6 +357,7 @@ func (cr *coqRec) reach(ndb api.NodeDB, ri *rootInfo) (out, inl []int) {
 		if nd == nil {
 			var err error
 			if nd, err = ndb.GetNode(root, ptr); err != nil {
+				out = append(out, cr.nid(ptr.Hash)) // already lost by the database (known C06 findings): still a node of the root
 				return
 			}
 		}
@@ -683,10 +684,12 @@ func genCase(r *prng.R, backend string, lastKind int) Case {
 		var ws []Write
 		for i, n := 0, r.Range(1, 3); i < n; i++ {
 			if old != 0 && len(conts[old]) > 0 && r.Chance(30) {
+				ks := make([]int, 0, len(conts[old]))
 				for k := range conts[old] {
-					ws = append(ws, Write{Key: k, Val: 0})
-					break
+					ks = append(ks, k)
 				}
+				sort.Ints(ks)
+				ws = append(ws, Write{Key: ks[r.Intn(len(ks))], Val: 0})
 			} else {
 				ws = append(ws, Write{Key: r.Range(1, 8), Val: r.Range(1, 2)})
 			}
